@@ -454,8 +454,10 @@ class KSKM_P11Module:
             ec_point = bytes(_cka_ec_point[0])
             # SoftHSM2 tacks on an extra 0x04 <len-byte> before the 0x04 that signals an
             # uncompressed EC point. Check for that and remove it if found.
+            # (Only do so if what remains has the length of an uncompressed P-256 or P-384 point,
+            # or a bare point whose X coordinate happens to start with <len-2> 0x04 is mangled.)
             _prefix = bytes([4, len(ec_point) - 2, 4])
-            if ec_point.startswith(_prefix):
+            if ec_point.startswith(_prefix) and len(ec_point) - 2 in (65, 97):
                 ec_point = ec_point[2:]
             logger.debug("EC_POINT: %s", binascii.hexlify(ec_point))
             ec_params = bytes(
